@@ -235,19 +235,35 @@ theorem run_counts (l : List RKind) (s : CQ) :
       · simp
       · omega
 
-/-- while a flush response is still missing, no copy response completes the command -/
-theorem stays_queued (l : List RKind) (s : CQ) (hf : l.count .flush < s.f) (hq : s.queued = true) :
+/-- no early completion: while fewer responses than requests have been processed the command
+    stays queued -/
+theorem stays_queued (l : List RKind) (s : CQ) (hl : l.length < s.f + s.c) (hq : s.queued = true) :
     (l.foldl deliver s).queued = true := by
+  induction l generalizing s with
+  | nil => exact hq
+  | cons k t ih =>
+    simp only [List.length_cons] at hl
+    cases k
+    · refine ih (deliver s .flush) ?_ ?_
+      · simp only [deliver]; omega
+      · simp only [deliver, hq, Bool.true_and, Bool.not_eq_true', beq_eq_false_iff_ne]; omega
+    · refine ih (deliver s .copy) ?_ ?_
+      · simp only [deliver]; omega
+      · simp only [deliver, hq, Bool.true_and, Bool.not_eq_true', beq_eq_false_iff_ne]; omega
+
+/-- before the fix: while a flush response is still missing, no copy response completes the command -/
+theorem stays_queued_old (l : List RKind) (s : CQ) (hf : l.count .flush < s.f) (hq : s.queued = true) :
+    (l.foldl deliverOld s).queued = true := by
   induction l generalizing s with
   | nil => exact hq
   | cons k t ih =>
     cases k
     · simp only [List.count_cons_self] at hf
-      refine ih (deliver s .flush) ?_ hq
-      simp only [deliver]; omega
+      refine ih (deliverOld s .flush) ?_ hq
+      simp only [deliverOld]; omega
     · have hf' : t.count .flush < s.f := by simpa [List.count_cons] using hf
-      refine ih (deliver s .copy) hf' ?_
-      simp only [deliver, hq, Bool.true_and, Bool.not_eq_true', beq_eq_false_iff_ne]
+      refine ih (deliverOld s .copy) hf' ?_
+      simp only [deliverOld, hq, Bool.true_and, Bool.not_eq_true', beq_eq_false_iff_ne]
       omega
 
 end Copy
